@@ -16,6 +16,7 @@ Exit: 0 held / 1 violation / 2 internal error (no verdict, witness unreachable,
 bound too small, counterexample not reproduced).
 """
 import argparse
+import copy
 import concurrent.futures
 import hashlib
 import importlib.util
@@ -33,12 +34,7 @@ import traceback
 VERIF = os.path.dirname(os.path.dirname(os.path.abspath(__file__)))
 sys.path.insert(0, VERIF)
 from vp.api import Q, Mutant  # noqa: E402
-
-PRODUCT_DEFS = ["-DBUILDING_PARSEC", "-DYYERROR_VERBOSE", "-D_GNU_SOURCE",
-                "-Dparsec_EXPORTS", "-DNDEBUG"]
-PRODUCT_FLAGS = ["-std=gnu11", "-m64", "-mcx16"]
-MPI_INCS = ["/usr/lib/x86_64-linux-gnu/openmpi/include",
-            "/usr/lib/x86_64-linux-gnu/openmpi/include/openmpi"]
+from vp.util import (PRODUCT_DEFS, PRODUCT_FLAGS, MPI_INCS, InternalError, run_cmd)  # noqa: E402
 
 CHECK_FLAGS = {
     "bounds": "--bounds-check", "pointer": "--pointer-check",
@@ -111,51 +107,6 @@ class Ctx(object):
                 return hashlib.sha1(f.read()).hexdigest()[:12]
         except OSError:
             return None
-
-
-class InternalError(Exception):
-    pass
-
-
-def run_cmd(cmd, cwd=None, timeout=None, mem_gb=None, env=None, stdout_path=None):
-    """Run cmd under a virtual-memory limit and a wall-clock limit.
-    Returns (rc, stdout_text, stderr_text, seconds, peak_kb); rc None = timeout."""
-    tf = tempfile.NamedTemporaryFile(prefix="vptime.", delete=False)
-    tf.close()
-    wrapped = ["/usr/bin/time", "-f", "%e %M", "-o", tf.name] + list(cmd)
-    if mem_gb:
-        lim = int(mem_gb * 1024 * 1024)
-        wrapped = ["bash", "-c", "ulimit -v %d; exec \"$@\"" % lim, "vp"] + wrapped
-    t0 = time.time()
-    out_f = open(stdout_path, "w") if stdout_path else subprocess.PIPE
-    try:
-        p = subprocess.Popen(wrapped, cwd=cwd, env=env, stdout=out_f, stderr=subprocess.PIPE,
-                             text=True, start_new_session=True)
-        try:
-            out, err = p.communicate(timeout=timeout)
-            rc = p.returncode
-        except subprocess.TimeoutExpired:
-            try:
-                os.killpg(p.pid, 9)
-            except OSError:
-                pass
-            out, err = p.communicate()
-            rc = None
-    finally:
-        if stdout_path:
-            out_f.close()
-    secs = time.time() - t0
-    peak = 0
-    try:
-        with open(tf.name) as f:
-            last = f.read().strip().splitlines()[-1].split()
-            peak = int(last[1])
-    except Exception:
-        pass
-    os.unlink(tf.name)
-    if stdout_path:
-        out = ""
-    return rc, out, err, secs, peak
 
 
 def make_overlay(ctx, dst, edits, base_overlays=()):
@@ -343,6 +294,10 @@ def native_replay(ctx, q, qdir, overlays, defs, srcs, replay_file):
 
 def run_query(ctx, q, tag="", extra_defs=(), mut_overlay=None, want_replay=True, replay_root=None):
     """Compile + solve one query.  Returns a result dict."""
+    # private copy: gen() and the unwind plumbing extend the query's lists
+    q = copy.copy(q)
+    q.srcs, q.units, q.unwindset, q.defs = list(q.srcs), list(q.units), list(q.unwindset), list(q.defs)
+    q.unwind_fn, q.info = dict(q.unwind_fn), copy.deepcopy(q.info)
     qname = q.name + (("." + tag) if tag else "")
     qdir = os.path.join(ctx.work, re.sub(r"[^A-Za-z0-9_.-]", "_", qname))
     os.makedirs(qdir, exist_ok=True)
@@ -366,6 +321,11 @@ def run_query(ctx, q, tag="", extra_defs=(), mut_overlay=None, want_replay=True,
             defs.append("WITNESS")
         gb, ccmd, units, srcs = compile_goto(ctx, q, qdir, overlays, defs)
         res["units"] = {u: ctx.sha1(u) for u in units}
+        if q.unwind_fn:
+            rc0, o0, e0, _, _ = run_cmd(["goto-instrument", "--show-loops", gb], cwd=qdir, timeout=300)
+            for mm in re.finditer(r"^Loop ([\w$.]+)\.(\d+):", o0 or "", flags=re.M):
+                if mm.group(1) in q.unwind_fn:
+                    q.unwindset.append("%s.%s:%d" % (mm.group(1), mm.group(2), q.unwind_fn[mm.group(1)]))
         fl = cbmc_flags(q)
         timeout = q.timeout or (3600 if ctx.thorough else 900)
         mem = q.mem_gb or (24 if ctx.thorough else 12)
